@@ -113,7 +113,7 @@ def run(F, R):
     # checked against the recorded index (C16.S4 custody)
     from .C16 import s4_custody
     from . import C05 as _c5
-    s4_custody(F, R, M, _c5.classify_api(_c5.queue_api(F, M)), rule='T9', only=('receive', 'recycle_rx_buffer'))
+    guard(R, 'T9', 'custody', lambda: s4_custody(F, R, M, _c5.classify_api(_c5.queue_api(F, M)), rule='T9', only=('receive', 'recycle_rx_buffer')))
     # T10: the owning queue's pop trusts a device-reported token because buffer i is always in the queue under descriptor i:
     # every return of poll (the handler's error included) re-posts the popped buffer (C19.Q1); otherwise a repeated id
     # recycles a free descriptor and unshares its buffer a second time
@@ -121,7 +121,7 @@ def run(F, R):
     poll_rule(F, R, 'T10')
     # T11: no access past the MMIO region: the configuration window built from a (pointer, size) region description ends inside it (C13.G7)
     from .C13 import g7_region_window
-    g7_region_window(F, R, rule='T11')
+    guard(R, 'T11', 'region-window', lambda: g7_region_window(F, R, rule='T11'))
     if 'device::gpu::VirtIOGpu' in F.adts:
         from . import C05 as _c5
         from .C20 import z3_z4_gpu
